@@ -314,7 +314,7 @@ func (f *Frame) applyContract(pos token.Pos, fn *ssa.Function, con *Contract, ar
 	results := fn.Signature.Results()
 	defs := map[int]string{}
 	for _, e := range con.Ensures {
-		if !e.Expr.IsL || len(e.Expr.List) != 3 || e.Expr.Head() != "=" || e.Expr.List[1].IsL {
+		if e.Internal || !e.Expr.IsL || len(e.Expr.List) != 3 || e.Expr.Head() != "=" || e.Expr.List[1].IsL {
 			continue
 		}
 		idx := resultIndex(e.Expr.List[1].Atom, results)
@@ -369,6 +369,9 @@ func (f *Frame) applyContract(pos token.Pos, fn *ssa.Function, con *Contract, ar
 		}
 	}
 	for _, e := range con.Ensures {
+		if e.Internal {
+			continue
+		}
 		t, err := env.eval(e.Expr)
 		if err != nil {
 			vc.unsupported(pos, "cannot use ensures of %s: %v", fn, err)
